@@ -716,9 +716,37 @@ class Interp:
         out = []
         for f in self.prog.all_functions():
             for n in self.own_nodes(f):
-                if isinstance(n, ast.Call) and isinstance(n.func, ast.Name) and n.func.id == "getattr" and len(n.args) >= 2 and isinstance(n.args[1], ast.JoinedStr):
+                if isinstance(n, ast.Call) and isinstance(n.func, ast.Name) and n.func.id == "getattr" and len(n.args) >= 2 and self._idiom_name_syntactic(f, n.args[1], 0) is not None:
                     out.append((f, n))
         return out
+
+    def _idiom_name_syntactic(self, f: FuncInfo, e: ast.expr, depth: int):
+        """The f-string an attribute-name expression stands for: itself, a local bound once to it, or the value a
+        small helper returns (`name = _handler_name(protocol, message)`).  Returns (function, JoinedStr) or None."""
+        if depth > 3:
+            return None
+        if isinstance(e, ast.JoinedStr):
+            return f, e
+        if isinstance(e, ast.Name) and e.id not in f.params:
+            la = self.local_assigns(f).get(e.id) or []
+            if len(la) == 1 and isinstance(la[0], ast.expr):
+                return self._idiom_name_syntactic(f, la[0], depth + 1)
+            return None
+        if isinstance(e, ast.Call) and isinstance(e.func, (ast.Name, ast.Attribute)):
+            h = None
+            if isinstance(e.func, ast.Name):
+                d = self.prog.resolve_name(f.module, e.func.id)
+                if d is not None and d.kind == "func":
+                    h = d.obj
+            elif isinstance(e.func.value, ast.Name) and e.func.value.id in ("cls", "self") and f.cls is not None:
+                h = f.cls.find_method(e.func.attr)
+            if h is None or h.is_async or h is f:
+                return None
+            rets = [n for n in self.own_nodes(h) if isinstance(n, ast.Return)]
+            if len(rets) != 1 or rets[0].value is None or rets[0] is not h.node.body[-1]:
+                return None
+            return self._idiom_name_syntactic(h, rets[0].value, depth + 1)
+        return None
 
     def _getattr_idiom(self, call: ast.Call, fr: Frame):
         """getattr(<class>, f"prefix{<enumvar>.name[.lower()]}", [default])."""
@@ -754,6 +782,25 @@ class Interp:
         if UNKNOWN in owner_vals:
             return None
         js = call.args[1]
+        # the name may be a local bound to the f-string, or come from a small helper: evaluate the f-string in the
+        # frame of the function that contains it
+        hops = 0
+        while not isinstance(js, ast.JoinedStr) and hops < 4:
+            hops += 1
+            if isinstance(js, ast.Name) and js.id not in fr.func.params:
+                la = self.local_assigns(fr.func).get(js.id) or []
+                if len(la) == 1 and isinstance(la[0], ast.expr):
+                    js = la[0]
+                    continue
+                return None
+            if isinstance(js, ast.Call) and self._idiom_name_syntactic(fr.func, js, 0) is not None:
+                ts = [t for t in self.resolve_call(js, fr) if t.kind == "repo" and t.frame is not None]
+                if len(ts) != 1:
+                    return None
+                fr = ts[0].frame
+                js = fr.func.node.body[-1].value
+                continue
+            return None
         if not isinstance(js, ast.JoinedStr):
             return None
         prefix = ""
@@ -761,16 +808,27 @@ class Interp:
         lower = False
         upper = False
         seen_fv = False
+        seen_enum = False
         for part in js.values:
             if isinstance(part, ast.Constant):
-                if seen_fv:
+                if seen_enum:
                     return None
                 prefix += str(part.value)
             elif isinstance(part, ast.FormattedValue):
-                if seen_fv:
+                if seen_enum:
                     return None
                 seen_fv = True
                 e = part.value
+                # a constant prefix kept in a module-level name
+                if isinstance(e, (ast.Name, ast.Attribute)) and not seen_enum:
+                    try:
+                        cv = self.folder.fold(fr.module, e)
+                    except Unfoldable:
+                        cv = None
+                    if isinstance(cv, str):
+                        prefix += cv
+                        continue
+                seen_enum = True
                 if isinstance(e, ast.Call) and isinstance(e.func, ast.Attribute) and e.func.attr in ("lower", "upper") and not e.args:
                     lower = e.func.attr == "lower"
                     upper = e.func.attr == "upper"
@@ -1156,5 +1214,17 @@ class Interp:
                 return [Target("attr-callable", fullname=full)]
             if d.kind == "external":
                 return [Target("external", fullname=d.obj, argtypes=argtypes)]
+            if d.kind == "const":
+                # a module-level constant holding a callable object (e.g. a validator instance): call its type
+                t = p.type_of(fr.module, call.func) or ""
+                base = t.split("[")[0]
+                if base and "." in base and not base.startswith(("def ", "Overload", "Any")):
+                    if base.startswith(PKG + "."):
+                        dd = p.lookup_fullname(base)
+                        if dd is not None and dd.kind == "class":
+                            cm = dd.obj.find_method("__call__")
+                            if cm is not None:
+                                return [Target("repo", frame=self.bind_call(self.make_callee(cm, dd.obj), call, fr, fr.V, facts=self._facts_ctx))]
+                    return [Target("external", fullname=f"{base}.__call__", argtypes=argtypes)]
             return [Target("unknown", note=f"{full} is a {d.kind}")]
         return [Target("external", fullname=full, argtypes=argtypes)]
